@@ -103,13 +103,19 @@ Theorem binop_rewrite_keeps_symbols :
   exists S', usyms e' = Ok S' /\ same_set S S' = true.
 Proof. exact opt_binop_syms. Qed.
 Print Assumptions binop_rewrite_keeps_symbols.
-(* ... but _optimize compares against the set taken BEFORE the children were optimised, so it panics when a child
-   lost a marker to dead-branch elimination and the parent binop then rewrites (fail-closed; reported) *)
-Example symbol_check_stale_set :
+(* the "missing symbols" CompilerPanic of _check_symbols is impossible (reference set = symbols of the optimised
+   operands, /repo 8260fcf; before that repair the set was taken before the operands were optimised and the check
+   fired on valid programs after dead-branch elimination -- found with this model, reported, fixed) *)
+Theorem symbol_check_never_fires :
+  forall o a b pc e' st now,
+  opt_binop o a b pc = Ok (Some e') -> usyms_union [a; b] = Ok st -> usyms e' = Ok now -> same_set st now = true.
+Proof. exact SymSound.symbol_check_never_fires. Qed.
+Print Assumptions symbol_check_never_fires.
+Example symbol_check_examples :
   optimize true (Bin B_add (Node "if" [Lit 1; Lit 0; Node "seq" [Node "unique_symbol" [Var "s"]; Lit 2]]) (Cx 1))
-    = Err KeyErr /\
-  optimize true (Bin B_add (Node "if" [Lit 1; Lit 5; Node "seq" [Node "unique_symbol" [Var "s"]; Lit 2]]) (Cx 1))
-    = Ok (Bin B_add (Lit 5) (Cx 1)) /\
+    = Ok (Cx 1) /\
+  optimize true (Bin B_add (Node "seq" [Node "unique_symbol" [Var "s"]; Lit 0]) (Cx 1))
+    = Ok (Bin B_add (Node "seq" [Node "unique_symbol" [Var "s"]; Lit 0]) (Cx 1)) /\
   optimize true (Node "seq" [Node "unique_symbol" [Var "s"]; Node "unique_symbol" [Var "s"]]) = Err KeyErr.
 Proof. repeat split; vm_compute; reflexivity. Qed.
 (* (2) whenever optimize returns a tree, that tree carries a subset of the input's symbols, each still once: the
